@@ -25,6 +25,7 @@ func fileOpts(tier string, minBatches int, long bool) core.HistOpts {
 		o.PageMax = 50
 	}
 	o.ManyPct, o.ManyMax = 1, 40
+	o.HugePct = 2
 	if tier == "thorough" {
 		o.MaxOps = 48
 		o.MaxBatches = 4
